@@ -96,4 +96,206 @@ theorem topn_eq_spec (n off : Nat) (ks : List OrderKey) (Xs : List Chunk) :
 example : flat (topNExec 2 1 [{ key := fun r => r.getD 0 .null, desc := true }] [[[.i32 1], [.i32 5]], [[.null], [.i32 3]]]) =
     [[.i32 3], [.i32 1]] := by decide
 
+/-! ## hash joins agree with nested-loop joins — exactly when keys are comparable -/
+
+/-- FULL statement (false, see `hash_eq_nl_unsound_*`): for every input the hash join returns the
+bag of the nested-loop join on `lk = rk`.  Proved under the forced hypothesis `KeysComparable`. -/
+theorem hash_eq_nl_inner (lk rk : List (Row → Val)) (nL nR : Nat) (Ls Rs : List Chunk)
+    (hlen : ∀ l ∈ flat Ls, l.length = nL) (hk : KeysComparable lk rk (flat Ls) (flat Rs)) :
+    (flat (hashJoin .inner lk rk nL nR Ls Rs)).Perm
+      (flat (nlJoin false (equiOn nL lk rk (fun _ => some true)) nR Ls Rs)) :=
+  (hash_eq_spec_inner_partial lk rk nL nR Ls Rs hlen hk).trans
+    (nl_eq_spec_inner (equiOn nL lk rk (fun _ => some true)) nL nR Ls Rs).symm
+
+theorem hash_eq_nl_semi (lk rk : List (Row → Val)) (nL : Nat) (Ls Rs : List Chunk)
+    (hlen : ∀ l ∈ flat Ls, l.length = nL) (hk : KeysComparable lk rk (flat Ls) (flat Rs)) :
+    flat (hashSemiJoin false lk rk Ls Rs) =
+      flat (nlSemiJoin false (equiOn nL lk rk (fun _ => some true)) Ls Rs) := by
+  rw [hash_semi_eq_spec_partial lk rk nL Ls Rs hlen hk, nl_eq_spec_semi _ nL 0]; rfl
+
+theorem hash_eq_nl_anti (lk rk : List (Row → Val)) (nL : Nat) (Ls Rs : List Chunk)
+    (hlen : ∀ l ∈ flat Ls, l.length = nL) (hk : KeysComparable lk rk (flat Ls) (flat Rs)) :
+    flat (hashSemiJoin true lk rk Ls Rs) =
+      flat (nlSemiJoin true (equiOn nL lk rk (fun _ => some true)) Ls Rs) := by
+  rw [hash_anti_eq_spec_partial lk rk nL Ls Rs hlen hk, nl_eq_spec_anti _ nL 0]; rfl
+
+/-- without any hypothesis: the inner hash join returns the pairs whose key vectors are
+STRUCTURALLY equal (`DataValue`'s derived `Eq`), for every chunking of both inputs. -/
+theorem hashjoin_inner_structural (lk rk : List (Row → Val)) (nL nR : Nat) (Ls Rs : List Chunk) :
+    (flat (hashJoin .inner lk rk nL nR Ls Rs)).Perm
+      ((flat Ls).flatMap (fun l => ((flat Rs).filter (fun r => keyOf lk l == keyOf rk r)).map (l ++ ·))) :=
+  hashjoin_inner_rows lk rk nL nR Ls Rs
+
+/-- … hence it does not depend on the chunk boundaries of its inputs. -/
+theorem chunking_irrelevant_hashjoin_inner (lk rk : List (Row → Val)) (nL nR k k' : Nat) (Ls Rs : List Chunk) :
+    (flat (hashJoin .inner lk rk nL nR (rechunk k Ls) (rechunk k' Rs))).Perm
+      (flat (hashJoin .inner lk rk nL nR Ls Rs)) := by
+  have hr : ∀ k (Xs : List Chunk), flat (rechunk k Xs) = flat Xs := by
+    intro k Xs; unfold rechunk; split
+    · simp [flat]
+    · rw [builder_flat]; rfl
+  refine (hashjoin_inner_rows lk rk nL nR _ _).trans ?_
+  rw [hr, hr]
+  exact (hashjoin_inner_rows lk rk nL nR Ls Rs).symm
+
+def col0 : Row → Val := fun r => r.getD 0 .null
+
+/-- the hypothesis is satisfiable by non-trivial data (duplicates, non-matching rows) … -/
+example : KeysComparable [col0] [col0] [[.i32 1], [.i32 2], [.i32 1]] [[.i32 1], [.i32 3]] := by
+  unfold KeysComparable; decide
+
+/-- … and it is forced: NULL keys break it, and then hash and nested-loop joins differ. -/
+theorem hash_eq_nl_unsound_null_key :
+    ¬ (∀ (Ls Rs : List Chunk), (flat (hashJoin .inner [col0] [col0] 1 1 Ls Rs)).Perm
+        (flat (nlJoin false (equiOn 1 [col0] [col0] (fun _ => some true)) 1 Ls Rs))) := by
+  intro h
+  have := (h [[[.null]]] [[[.null]]]).length_eq
+  revert this; decide
+
+theorem hash_eq_nl_unsound_int_width :
+    ¬ (∀ (Ls Rs : List Chunk), (flat (hashJoin .inner [col0] [col0] 1 1 Ls Rs)).Perm
+        (flat (nlJoin false (equiOn 1 [col0] [col0] (fun _ => some true)) 1 Ls Rs))) := by
+  intro h
+  have := (h [[[.i32 1]]] [[[.i64 1]]]).length_eq
+  revert this; decide
+
+theorem hash_anti_unsound_null_key :
+    ¬ (∀ (Ls Rs : List Chunk), flat (hashSemiJoin true [col0] [col0] Ls Rs) =
+        flat (nlSemiJoin true (equiOn 1 [col0] [col0] (fun _ => some true)) Ls Rs)) := by
+  intro h
+  have := h [[[.null]]] [[[.null]]]
+  revert this; decide
+
+/-- merge join has the same defect (adjacent groups are compared with `==`). -/
+theorem merge_eq_nl_unsound_null_key :
+    ¬ (∀ (Ls Rs : List Chunk), (flat (mergeJoin .inner [col0] [col0] 1 1 Ls Rs)).Perm
+        (flat (nlJoin false (equiOn 1 [col0] [col0] (fun _ => some true)) 1 Ls Rs))) := by
+  intro h
+  have := (h [[[.null]]] [[[.null]]]).length_eq
+  revert this; decide
+
+/-! ## aggregation: the two accumulation paths -/
+
+/-- ROW path = CHUNK path = spec for COUNT / COUNT(*) / MIN / MAX of one group … -/
+theorem rowpath_eq_spec (k : AggKind) (hk : k = .count ∨ k = .rowCount ∨ k = .min ∨ k = .max)
+    (vs : List Val) : rowPathVal k vs = aggVal k vs := by
+  rcases hk with h | h | h | h <;> subst h
+  · exact rowpath_count_eq_spec vs
+  · exact rowpath_rowcount_eq_spec vs
+  · exact rowpath_min_eq_spec vs
+  · exact rowpath_max_eq_spec vs
+
+/-- FULL statement `simpleagg_eq_hashagg_nokeys` for SUM (false): on a non-empty input the chunk
+path (agg) and the row path (hashagg without keys) return the same sum. -/
+theorem simpleagg_eq_hashagg_nokeys_sum_unsound :
+    ¬ (∀ vs : List Val, vs ≠ [] →
+        chunkPathVal .sum .i32 [(vs, vs.map rawOfVal)] = rowPathVal .sum vs) := by
+  intro h
+  have := h [.i32 5, .null, .i32 3] (by decide)
+  revert this; decide
+
+/-- … it holds when no NULL is involved (INT values). -/
+theorem simpleagg_eq_hashagg_nokeys_sum_partial (w : Int) (ws : List Int) :
+    chunkPathVal .sum .i32 [((w :: ws).map Val.i32, w :: ws)] = rowPathVal .sum ((w :: ws).map Val.i32) := by
+  have h1 := rowpath_sum_partial 0 (w :: ws)
+  simp only [List.replicate_zero, List.nil_append] at h1
+  rw [h1]
+  have hs : ∀ X, aggVal .sum X = aggSum X := fun _ => rfl
+  rw [hs]
+  unfold chunkPathVal initAgg evalAgg aggSum
+  have hnn : nonNull ((w :: ws).map Val.i32) = (w :: ws).map Val.i32 := by
+    have := nonNull_replicate_append 0 (w :: ws); simpa using this
+  rw [hnn]
+  have := intsOf_map_i32 (w :: ws)
+  simp only [List.map_cons] at this ⊢
+  rw [this]
+  simp [AggState.result, addExt, Val.isNull, arrSum, zeroOf, Val.withInt]
+
+/-- `first`: the chunk path takes the first ELEMENT of the chunk, the row path the first non-NULL. -/
+theorem simpleagg_eq_hashagg_nokeys_first_unsound :
+    chunkPathVal .first .i32 [([.null, .i32 5], [0, 5])] ≠ rowPathVal .first [.null, .i32 5] := by decide
+
+
+/-! ## the executors compute exactly the path values -/
+
+theorem zip_map_self {α β γ} (as : List α) (g : α → β) (f : α × β → γ) :
+    ((as.zip (as.map g)).map f) = as.map (fun a => f (a, g a)) := by
+  induction as with
+  | nil => rfl
+  | cons a as ih => simp [ih]
+
+theorem evalChunk_map (aggs : List XAgg) (g : XAgg → AggState) (c : Chunk) :
+    evalChunk aggs (aggs.map g) c =
+      aggs.map (fun a => evalAgg a.kind a.ty (g a) (c.map a.arg) (c.map a.raw)) := by
+  unfold evalChunk
+  exact zip_map_self aggs g _
+
+theorem foldl_evalChunk (aggs : List XAgg) (g : XAgg → AggState) (Xs : List Chunk) :
+    Xs.foldl (evalChunk aggs) (aggs.map g) =
+      aggs.map (fun a => Xs.foldl (fun st c => evalAgg a.kind a.ty st (c.map a.arg) (c.map a.raw)) (g a)) := by
+  induction Xs generalizing g with
+  | nil => rfl
+  | cons c cs ih =>
+    simp only [List.foldl_cons]
+    rw [evalChunk_map, ih]
+
+/-- `SimpleAggExecutor` computes, per aggregate, the chunk-path value over the stream of argument
+columns — so everything proved about `chunkPathVal` is about the executor. -/
+theorem simpleagg_is_chunkpath (aggs : List XAgg) (Xs : List Chunk) :
+    flat (simpleAgg aggs Xs) =
+      [aggs.map (fun a => chunkPathVal a.kind a.ty (Xs.map (fun c => (c.map a.arg, c.map a.raw))))] := by
+  unfold simpleAgg initStates chunkPathVal
+  rw [foldl_evalChunk]
+  simp only [flat, List.flatten_cons, List.flatten_nil, List.append_nil, List.map_map]
+  congr 1
+  apply List.map_congr_left
+  intro a _
+  simp only [Function.comp]
+  congr 1
+  rw [List.foldl_map]
+
+theorem appendRow_map (aggs : List XAgg) (g : XAgg → AggState) (r : Row) :
+    appendRow aggs (aggs.map g) r = aggs.map (fun a => aggAppend a.kind (g a) (a.arg r)) := by
+  unfold appendRow
+  exact zip_map_self aggs g _
+
+theorem foldl_appendRow (aggs : List XAgg) (g : XAgg → AggState) (X : List Row) :
+    X.foldl (appendRow aggs) (aggs.map g) =
+      aggs.map (fun a => (X.map a.arg).foldl (aggAppend a.kind) (g a)) := by
+  induction X generalizing g with
+  | nil => rfl
+  | cons r rs ih =>
+    simp only [List.foldl_cons, List.map_cons]
+    rw [appendRow_map, ih]
+
+/-- `SortAggExecutor` / `HashAggExecutor` without keys on a non-empty input: one row holding the
+row-path value of every aggregate. -/
+theorem sortagg_nokeys_is_rowpath (aggs : List XAgg) (Xs : List Chunk) (r : Row) (rs : List Row)
+    (hX : flat Xs = r :: rs) :
+    flat (sortAgg [] aggs Xs) = [aggs.map (fun a => rowPathVal a.kind ((r :: rs).map a.arg))] := by
+  unfold sortAgg
+  rw [flat_emit, hX]
+  have key : ∀ (X : List Row) (g : XAgg → AggState),
+      saLoop [] aggs X (some []) (aggs.map g) =
+        [[] ++ (aggs.map (fun a => (X.map a.arg).foldl (aggAppend a.kind) (g a))).map AggState.result] := by
+    intro X
+    induction X with
+    | nil => intro g; simp [saLoop]
+    | cons x xs ih =>
+      intro g
+      unfold saLoop
+      simp only [keyOf, List.map_nil, beq_self_eq_true, if_true]
+      rw [appendRow_map, ih]
+      simp [List.foldl_cons]
+  unfold saLoop
+  simp only [keyOf, List.map_nil]
+  have hne : ((none : Option (List Val)) == some []) = false := rfl
+  simp only [hne, Bool.false_eq_true, if_false, List.nil_append]
+  unfold initStates
+  rw [appendRow_map]
+  have := key rs (fun a => aggAppend a.kind (initAgg a.kind) (a.arg r))
+  rw [this]
+  simp [rowPathVal, List.map_map, Function.comp]
+
+
 end RlModel
